@@ -1,0 +1,7 @@
+//go:build verif
+
+package bchutil
+
+// VerifPolyMod exposes the cashaddr checksum remainder function to the
+// verification harness in /verif (build tag "verif" only).
+func VerifPolyMod(v []byte) uint64 { return polyMod(v) }
